@@ -166,14 +166,17 @@ func freeAllOrNone(u *Universe, ref *Ref) bool {
 	return n == 0 || n == len(u.Free)
 }
 
-// drainFrom replays path and then deletes every stored key one by one (ascending or descending
+// DrainEval replays path and then deletes every stored key one by one (ascending or descending
 // oracle order), applying the monitor's transition check and light check after every step: long
-// monotone tails through every shrink threshold and merge, from every reachable state.
-func (e *explorer) drainFrom(path []Op, descending bool) (*Violation, []Op) {
-	u, m, st := e.u, e.m, &e.res.Stats
+// monotone tails through every shrink threshold and merge, from every reachable state. It is
+// deterministic in (path, order), so it doubles as the replay primitive of what it finds.
+func DrainEval(u *Universe, m Monitor, path []Op, descending bool, st *Stats) *Violation {
+	if st == nil {
+		st = &Stats{}
+	}
 	d, ref, err := rebuild(u, path)
 	if err != nil {
-		return nil, nil
+		return nil
 	}
 	keys := ref.Sorted()
 	if descending {
@@ -188,19 +191,22 @@ func (e *explorer) drainFrom(path []Op, descending bool) (*Violation, []Op) {
 		ref.Apply(op)
 		x.Ref = ref
 		st.DrainSteps++
+		tail := fmt.Sprintf(" [%d deletions into the drain: %s]", len(full)-len(path), u.PathString(full[len(path):]))
 		if v := m.Transition(x); v != nil {
-			return v, full
+			v.What += tail
+			return v
 		}
 		if transitionFaulty(x) {
-			return nil, nil // owned by C01
+			return nil // owned by C01
 		}
 		if w, ok := m.(Warmer); ok {
 			if v := w.Light(x, x); v != nil {
-				return v, full
+				v.What += tail
+				return v
 			}
 		}
 	}
-	return nil, nil
+	return nil
 }
 
 type stateRec struct {
@@ -379,6 +385,9 @@ func EvalPathX(u *Universe, m Monitor, path []Op, fill string, st *Stats) (*Eval
 	}
 	if fill == "warm" {
 		return evalWarm(u, m, path, st)
+	}
+	if fill == "drain-asc" || fill == "drain-desc" {
+		return &EvalResult{V: DrainEval(u, m, path, fill == "drain-desc", st)}, nil
 	}
 	d, pre, err := rebuild(u, path[:len(path)-1])
 	if err != nil {
@@ -629,6 +638,11 @@ func Explore(u *Universe, m Monitor, cfg Config) *Result {
 					continue
 				}
 				kd, kr := StateKeys(d, &scratch)
+				// taken before any query runs on the successor, like the poisoned successors it is compared with
+				var erased Hash
+				if cfg.Poison {
+					erased = erasedKey(d, &scratch)
+				}
 				ent, ok := seen[kd]
 				isNew := false
 				if !ok {
@@ -668,7 +682,6 @@ func Explore(u *Universe, m Monitor, cfg Config) *Result {
 					}
 				}
 				if cfg.Poison {
-					erased := erasedKey(d, &scratch)
 					for _, f := range fills {
 						pd, ppre, err := rebuild(u, path)
 						if err != nil {
@@ -738,8 +751,12 @@ func Explore(u *Universe, m Monitor, cfg Config) *Result {
 				// from every state, so only the first states get the (long) drain
 				if isNew && cfg.Drain && (len(u.Setup) <= 24 || st.States+st.Variants <= 12 || freeAllOrNone(u, x.Ref)) {
 					for _, desc := range []bool{false, true} {
-						if dv, dpath := e.drainFrom(full, desc); dv != nil {
-							if e.report(dv, dpath, "") {
+						if dv := DrainEval(u, m, full, desc, st); dv != nil {
+							fill := "drain-asc"
+							if desc {
+								fill = "drain-desc"
+							}
+							if e.report(dv, full, fill) {
 								return e.res
 							}
 							break
